@@ -95,6 +95,28 @@ pub fn check_sim(property: &str, sim: &mut Sim, c: usize, view: &ClientView) -> 
     Ok(())
 }
 
+/// After closure: the despawn of a server entity that was mapped to a pre-spawned client entity
+/// is replication for that entity too - the client's entity is gone.
+pub fn check_closed(property: &str, sim: &mut Sim) -> Result<(), Violation> {
+    for &(c, slot) in &sim.despawned_mapped {
+        let Some(&pre) = sim.prespawned.get(&(c, slot)) else { continue };
+        if sim.pre_despawned.contains(&(c, slot)) || !sim.is_authorized(c) {
+            continue;
+        }
+        if sim.clients[c].app.world().get_entity(pre).is_ok() {
+            return Err(Violation::new(
+                property,
+                "despawn-not-landed",
+                format!(
+                    "client c{c}: the server despawned e{} (mapped to the client's pre-spawned {pre} when it was spawned), everything was delivered, but {pre} still exists",
+                    slot + 1
+                ),
+            ));
+        }
+    }
+    Ok(())
+}
+
 pub fn cells(tier: Tier) -> Vec<CellPlan> {
     let q = tier.quick();
     let mut v = Vec::new();
@@ -111,6 +133,7 @@ pub fn cells(tier: Tier) -> Vec<CellPlan> {
         Op::MapPrePredicted(0, 4),
         Op::Rm(4, TB),
         Op::MapPreSameId(0, 2),
+        Op::MapPreMarked(0, 5),
         Op::DespawnPre(0, 1),
         Op::Mut(1, TA),
         Op::Ins(1, TB),
